@@ -158,7 +158,7 @@ func WConfig(prop, tier string) *Config {
 		ops := []string{"ts_spot_limitbuy_met_own1", "ts_spot_limitbuy_unmet_own1", "ts_spot_limitsell_met_own1", "ts_spot_stoploss_unmet_own1", "ts_spot_limitbuy_met_own2", "ts_marketbuy_own2",
 			"ts_perp_long_met_own1", "ts_perp_long_unmet_own1", "ts_perp_short_unmet_own1", "ts_perp_long_met_huge_own1", "ts_perp_long_met_own2",
 			"ts_update_spot_first_by_own1", "ts_cancel_spot_first_by_own1", "ts_update_perp_first_by_own1", "ts_cancel_perp_first_by_own1", "ts_cancel_all_by_own1",
-			"ts_update_spot_first_by_own2", "ts_cancel_spot_first_by_bot", "ts_update_perp_first_by_bot", "ts_cancel_perp_first_by_own2", "ts_cancel_all_by_own2",
+			"ts_update_spot_first_by_own2", "ts_cancel_spot_first_by_bot", "ts_update_perp_first_by_bot", "ts_cancel_perp_first_by_own2", "ts_cancel_all_by_own2", "ts_cancel_everyones_by_own2",
 			"ts_execute_all_bot", "ts_execute_all_plus_missing_bot", "ts_execute_all_twice", "cfg_perp_maxpos0", "price_atom_3", "price_atom_8", "nofeed", "empty"}
 		cfg.Oracles = []*Oracle{OracleC20()}
 		if thorough {
@@ -166,7 +166,7 @@ func WConfig(prop, tier string) *Config {
 				{Name: "core-depth4", Roots: []string{"R0"}, Ops: []string{"ts_spot_limitbuy_met_own1", "ts_spot_stoploss_unmet_own1", "ts_perp_long_met_own1", "ts_perp_long_unmet_own1", "ts_perp_long_met_huge_own1", "ts_perp_short_unmet_own1", "ts_perp_long_met_own2", "ts_update_perp_first_by_own1", "ts_cancel_all_by_own1", "ts_cancel_spot_first_by_bot", "ts_execute_all_bot", "ts_execute_all_twice", "cfg_perp_maxpos0", "price_atom_3"}, Depth: 4, Dev: 3}}
 		} else {
 			cfg.Phases = []Phase{{Name: "full-depth2", Roots: []string{"R0", "R1"}, Ops: ops, Depth: 2, Dev: 2},
-				{Name: "core-depth3", Roots: []string{"R0"}, Ops: []string{"ts_spot_limitbuy_met_own1", "ts_spot_stoploss_unmet_own1", "ts_perp_long_met_own1", "ts_perp_long_met_huge_own1", "ts_perp_short_unmet_own1", "ts_perp_long_met_own2", "ts_cancel_all_by_own1", "ts_execute_all_bot", "cfg_perp_maxpos0", "price_atom_3"}, Depth: 3, Dev: 3}}
+				{Name: "core-depth3", Roots: []string{"R0"}, Ops: []string{"ts_spot_limitbuy_met_own1", "ts_spot_stoploss_unmet_own1", "ts_perp_long_met_own1", "ts_perp_long_met_huge_own1", "ts_perp_short_unmet_own1", "ts_perp_long_met_own2", "ts_spot_limitbuy_met_own2", "ts_cancel_everyones_by_own2", "ts_cancel_all_by_own1", "ts_execute_all_bot", "cfg_perp_maxpos0", "price_atom_3"}, Depth: 3, Dev: 3}}
 		}
 	case "C10":
 		ops := []string{"llp_open_t1_x3_stoploss", "llp_open_t2_x5", "llp_open_t3_x9", "llp_open_t1_x2_again", "perp_open_long_t1_stoploss", "perp_open_short_t2", "perp_open_long_t3_x5", "perp_open_long_t3_max", "perp_topup_t1", "perp_update_sl_t1",
